@@ -236,14 +236,18 @@ impl Iterator for ClientConnection {
 
             // checking HTTP version
             if *rq.http_version() > (1, 1) {
-                let writer = self.sink.next().unwrap();
+                use std::io::Write;
+                // answering on the rejected request's own writer: a later writer would
+                // wait for this one, which is never released while we wait
+                let mut writer = rq.into_writer();
                 let response = Response::from_string(
                     "This server only supports HTTP versions 1.0 and 1.1".to_owned(),
                 )
                 .with_status_code(StatusCode(505));
                 response
-                    .raw_print(writer, HTTPVersion(1, 1), &[], false, None)
+                    .raw_print(writer.by_ref(), HTTPVersion(1, 1), &[], false, None)
                     .ok();
+                writer.flush().ok();
                 continue;
             }
 
